@@ -99,6 +99,17 @@ pub fn ref_decode(reg: &Registry, ty: &Ty, bytes: &[u8]) -> R<Decoded> {
     Ok(Decoded { val, consumed: cur.pos, marks: d.marks, probes: d.probes })
 }
 
+/// like `ref_decode`, also reporting how many model steps were spent (a large number means the
+/// bytes legitimately denote a long loop, e.g. a huge count of zero-sized elements)
+pub fn ref_decode_metered(reg: &Registry, ty: &Ty, bytes: &[u8]) -> (R<Val>, u64) {
+    let mut d = Decoder::new(reg, bytes);
+    d.record_marks = false;
+    let start = d.fuel;
+    let mut cur = Cur { pos: 0, end: bytes.len() };
+    let r = d.decode(ty, &mut cur);
+    (r, start - d.fuel)
+}
+
 /// Decode as much as possible and return the marks collected until the first error (used to aim
 /// faults at data that is about to be read as another type).
 pub fn ref_marks(reg: &Registry, ty: &Ty, bytes: &[u8]) -> Vec<Mark> {
